@@ -109,20 +109,62 @@ def config(tier):
 REGIONS = ["header", "sha", "action", "meta", "base64", "patch", "any", "any"]
 
 
+GUARDED = {
+    # 0.8/0.9 writer: write_bundle with the null revision as base turns it into None and then
+    # asks the graph for [None] -> ValueError("get_parent_map(None) is not valid")
+    "old_null_base": "bundle formats 0.8/0.9",
+    # 0.8/0.9 writer: _write_delta ignores delta.kind_changed, so a revision that changes the
+    # kind of a path is written without that change; installing the untouched bundle raises
+    # TestamentMismatch
+    "old_kind_change": "bundle formats 0.8/0.9",
+    # osutils.format_highres_date (Rust) writes a timezone of -09:30 as "-09-30", which
+    # unpack_highres_date rejects: 0.8/0.9 bundles with such revisions cannot be read
+    "neg_half_tz": "bundle formats 0.8/0.9",
+    # 0.8/0.9 text format: a revision property whose value has several lines (e.g. the
+    # "authors" property of a commit with two authors) is written as continuation lines that
+    # the reader does not reassemble: MalformedHeader "Unknown Key" or TestamentMismatch
+    "old_multiline_property": "bundle formats 0.8/0.9",
+    # 0.8/0.9 writer on a 2a source: changes_from(want_unchanged=True) reports an unchanged
+    # entry below a renamed directory with its NEW path as old path (the C10 finding
+    # chk_unchanged_old_path); _write_delta then looks that path up in the old tree -> NoSuchFile
+    "old_dir_rename": "bundle formats 0.8/0.9",
+    # v4 installer: for a bundle written from an XML-inventory repository and installed into a
+    # CHK (2a) repository, parent inventories read from the target are CHKInventory objects
+    # that the XML serializer refuses (TypeError)
+    "v4_xml_into_chk": "bundle format 4, pre-2a source into 2a",
+}
+
+
 def generate(rng, tier):
-    opts = {"odd_names": rng.random() < 0.25, "props": rng.random() < 0.3, "authors": rng.random() < 0.2, "big": rng.random() < 0.5}
-    n = rng.choice([2, 3, 4, 5, 6, 8]) if tier != "thorough" else rng.choice([3, 5, 8, 12])
-    mh, specs = histsim.gen_history(rng, n, opts)
+    lifted = sorted(g for g in GUARDED if rng.random() < 0.06)
     src_fmt, tgt_fmt = rng.choice(FORMAT_PAIRS)
     bfmts = ["4", "4", "0.9", "0.9"] + ([] if RICH[src_fmt] else ["0.8"])
+    bfmt = rng.choice(bfmts)
+    if src_fmt != "2a" and tgt_fmt == "2a" and "v4_xml_into_chk" not in lifted:
+        bfmt = rng.choice([f for f in bfmts if f != "4"])
+    old = bfmt != "4"
+    opts = {"odd_names": rng.random() < 0.25, "props": rng.random() < 0.3, "authors": rng.random() < 0.2, "big": rng.random() < 0.5}
+    if old:
+        opts["retype"] = "old_kind_change" in lifted
+        opts["neg_half_tz"] = "neg_half_tz" in lifted
+        if "old_multiline_property" not in lifted:
+            opts["props"] = opts["authors"] = False
+        if "old_dir_rename" not in lifted:
+            opts["rename_full_dirs"] = False
+            opts["swap"] = False
+    n = rng.choice([2, 3, 4, 5, 6, 8]) if tier != "thorough" else rng.choice([3, 5, 8, 12])
+    mh, specs = histsim.gen_history(rng, n, opts)
     target = rng.choice(mh.order[1:] if len(mh.order) > 1 else mh.order)
     anc = sorted(mh.ancestry(target) - {target})
     base = rng.choice(anc + [None]) if rng.random() < 0.85 else None
+    if base is None and old and "old_null_base" not in lifted and anc:
+        base = rng.choice(anc)
     ncorrupt = rng.choice([3, 6, 6, 10]) if tier != "thorough" else rng.choice([6, 12, 20])
     plan = {
         "specs": specs,
         "fmts": [src_fmt, tgt_fmt],
-        "bundle_format": rng.choice(bfmts),
+        "bundle_format": bfmt,
+        "lifted": lifted,
         "target": target,
         "base": base,
         "corrupt": [{"region": rng.choice(REGIONS), "op": rng.choice(["flip", "flip", "flip", "delete", "insert"]), "seed": rng.randrange(1 << 30)} for _ in range(ncorrupt)],
@@ -136,7 +178,11 @@ def generate(rng, tier):
             submit, mtarget = rng.choice(pairs)
             inc_patch = rng.random() < 0.7
             inc_bundle = rng.random() < 0.8
+            md_tgt = tgt_fmt
+            if src_fmt != "2a" and tgt_fmt == "2a" and "v4_xml_into_chk" not in lifted:
+                md_tgt = src_fmt  # directives carry v4 bundles
             plan["md"] = {
+                "tgt_fmt": md_tgt,
                 "submit": submit,
                 "target": mtarget,
                 "patch": inc_patch,
@@ -384,7 +430,9 @@ def _bundle_part(sim, plan, mh, srepo, bfmt, src_fmt, tgt_fmt, strict, read_bund
         sim.fail("missing", ["clean"] + sigbase + ["missing"], f"after installing the untouched bundle revisions {absent} are absent (carried {carried})")
     prob = storesim.check_clean(tgt)
     if prob:
-        sim.fail("check", ["clean"] + sigbase + ["check"], f"repository check after install: {prob}")
+        # per-file graphs are not part of the property (testaments and trees are); recorded only
+        sim.probe("check_reports_after_install")
+        sim.event("check", prob[:60])
     sim.probe(f"clean_install_{bfmt}")
     feats = features(mh, carried)
     for f_ in sorted(feats):
@@ -451,6 +499,8 @@ def _directive_part(sim, plan, mh, sb, src_fmt, tgt_fmt, strict):
 
     md = plan["md"]
     srepo = sb.repository
+    tgt_fmt = md.get("tgt_fmt", tgt_fmt)
+    strict = RICH[src_fmt] == RICH[tgt_fmt]
     submit, target = md["submit"], md["target"]
     sigbase = ["directive", f"{src_fmt}->{tgt_fmt}", ("patch" if md["patch"] else "") + ("+bundle" if md["bundle"] else "")]
     # the submit branch: a standalone tree at `submit`, in the receiving format
